@@ -40,6 +40,14 @@ func (m *hotReloadManager) startServer() error {
 	m.mu.Lock()
 	defer m.mu.Unlock()
 
+	// Load the new version first. If the file does not read, parse or compile,
+	// the server that is running must keep serving the previous version, so it
+	// is only stopped once its replacement is known to be good.
+	srv, useCompiler, err := m.buildDevServer()
+	if err != nil {
+		return err
+	}
+
 	// Stop existing server if running
 	if m.server != nil {
 		ctx, cancel := context.WithTimeout(context.Background(), 2*time.Second)
@@ -49,33 +57,40 @@ func (m *hotReloadManager) startServer() error {
 	}
 
 	// Start dev server with live reload support
-	srv, err := m.startDevServerInternal()
-	if err != nil {
-		return err
-	}
+	m.listen(srv, useCompiler)
 
 	m.server = srv
 	return nil
 }
 
-// startDevServerInternal starts the development server with live reload support
+// startDevServerInternal builds and starts the development server with live reload support
 func (m *hotReloadManager) startDevServerInternal() (*http.Server, error) {
+	srv, useCompiler, err := m.buildDevServer()
+	if err != nil {
+		return nil, err
+	}
+	m.listen(srv, useCompiler)
+	return srv, nil
+}
+
+// buildDevServer loads the source file and builds the server for it, without listening yet
+func (m *hotReloadManager) buildDevServer() (*http.Server, bool, error) {
 	// Read source file
 	source, err := os.ReadFile(m.filePath)
 	if err != nil {
-		return nil, fmt.Errorf("failed to read file: %w", err)
+		return nil, false, fmt.Errorf("failed to read file: %w", err)
 	}
 
 	// Parse the source
 	module, err := parseSource(string(source))
 	if err != nil {
-		return nil, fmt.Errorf("parse error: %w", err)
+		return nil, false, fmt.Errorf("parse error: %w", err)
 	}
 
 	// Use shared logic for route compilation/interpretation
 	useCompiler, _, wsServer, router, err := setupRoutes(module, m.filePath)
 	if err != nil {
-		return nil, err
+		return nil, false, err
 	}
 
 	// Create HTTP server with live reload support
@@ -103,7 +118,7 @@ func (m *hotReloadManager) startDevServerInternal() (*http.Server, error) {
 
 	// Register static file routes
 	if err := registerStaticRoutes(mux, module, m.filePath, m.port); err != nil {
-		return nil, err
+		return nil, false, err
 	}
 
 	srv := &http.Server{
@@ -115,6 +130,11 @@ func (m *hotReloadManager) startDevServerInternal() (*http.Server, error) {
 		MaxHeaderBytes: 1 << 20, // 1 MB
 	}
 
+	return srv, useCompiler, nil
+}
+
+// listen starts serving in the background
+func (m *hotReloadManager) listen(srv *http.Server, useCompiler bool) {
 	// Start server in background
 	go func() {
 		mode := "compiled"
@@ -131,8 +151,6 @@ func (m *hotReloadManager) startDevServerInternal() (*http.Server, error) {
 
 	// Give server time to start
 	time.Sleep(100 * time.Millisecond)
-
-	return srv, nil
 }
 
 // handleLiveReload handles Server-Sent Events for live reload
